@@ -68,6 +68,9 @@ type WrapCase struct {
 	N     int `json:"n"`
 	Calls int `json:"calls"`
 	VT    int `json:"vt"`
+	// Z (Before only): 0 = the callback never returns the zero value, 1 = its first run returns 0,
+	// 2 = its nth (last promised) run returns 0. Every run still returns a value of its own.
+	Z int `json:"z,omitempty"`
 }
 
 func (c WrapCase) norm() WrapCase {
@@ -76,16 +79,33 @@ func (c WrapCase) norm() WrapCase {
 	c.N = clamp(c.N, -60, 60)
 	c.Calls = clamp(c.Calls, 0, wideCalls)
 	c.VT = clamp(c.VT, 0, len(counterTypes)-1)
+	c.Z = clamp(c.Z, 0, 2)
 	return c
 }
 
 func (c WrapCase) String() string {
-	return fmt.Sprintf("n=%d (%s counter), %d calls", c.N, counterTypes[c.VT], c.Calls)
+	z := ""
+	if c.Z != 0 {
+		z = fmt.Sprintf(", run %s returns the zero value", [3]string{"", "1", "n"}[c.Z])
+	}
+	return fmt.Sprintf("n=%d (%s counter), %d calls%s", c.N, counterTypes[c.VT], c.Calls, z)
 }
 
 func enumWrap(s pbt.Src, thorough bool) WrapCase {
 	sc := enumScope(thorough)
 	return WrapCase{N: pbt.Range(s, sc.nLo, sc.nHi), Calls: pbt.Range(s, 0, sc.calls), VT: s.Intn(len(counterTypes))}
+}
+
+func enumBefore(s pbt.Src, thorough bool) WrapCase {
+	c := enumWrap(s, thorough)
+	c.Z = s.Intn(3)
+	return c
+}
+
+func genBefore(s pbt.Src, thorough bool) WrapCase {
+	c := genWrap(s, thorough)
+	c.Z = s.Intn(3)
+	return c
 }
 
 // wideN draws n from wideNLo..wideNHi in the order 1, 2, ..., wideNHi, 0, -1, ..., wideNLo:
@@ -169,7 +189,15 @@ func beforeRun[V signed](c WrapCase) error {
 	n := V(c.N)
 	cc := cache.New[string, int](cache.NoExpiration, 0)
 	count := 0
-	fn := func() int { count++; return 100 + count }
+	// every run returns a value of its own; with Z != 0 one chosen run returns the zero value
+	zeroAt := [3]int{-1000, 1, c.N}[c.Z]
+	val := func(run int) int {
+		if c.Z == 0 {
+			return 100 + run
+		}
+		return run - zeroAt
+	}
+	fn := func() int { count++; return val(count) }
 	last := 0 // result of the most recent run
 	for i := 1; i <= c.Calls; i++ {
 		before := count
@@ -187,7 +215,7 @@ func beforeRun[V signed](c WrapCase) error {
 		case ran == 1:
 			// The statement fixes what LATER calls return (the result of the last run);
 			// what a running call itself returns is not asserted.
-			last = 100 + count
+			last = val(count)
 			_ = got
 		case c.N >= 1:
 			if got != last {
@@ -234,6 +262,9 @@ func beforeProp(c WrapCase, r *pbt.R) error {
 
 type OnceCase struct {
 	Calls int `json:"calls"`
+	// Zero: the first run of the callback returns the zero value of the result type (later runs, which
+	// must not happen, would return something else).
+	Zero bool `json:"zero,omitempty"`
 }
 
 func onceProp(c OnceCase, r *pbt.R) error {
@@ -244,17 +275,26 @@ func onceProp(c OnceCase, r *pbt.R) error {
 	for i := 1; i <= calls; i++ {
 		before := count
 		// a new closure on every call, as in the repository's own test
-		got := gogu.Once[string, int, int](cc, func() int { count++; return 100 + count })
+		got := gogu.Once[string, int, int](cc, func() int {
+			count++
+			if c.Zero {
+				return count - 1
+			}
+			return 100 + count
+		})
 		ran := count - before
 		want := 0
 		if i == 1 {
 			want = 1
 		}
 		if ran != want {
-			return fmt.Errorf("Once, %d calls on a fresh non-expiring cache: call %d ran the callback %d time(s), want %d", calls, i, ran, want)
+			return fmt.Errorf("Once, %d calls on a fresh non-expiring cache (first result zero: %v): call %d ran the callback %d time(s), want %d", calls, c.Zero, i, ran, want)
 		}
 		if i == 1 {
 			first = 100 + count // result of the first (and only) run
+			if c.Zero {
+				first = 0
+			}
 		}
 		if got != first {
 			return fmt.Errorf("Once, %d calls on a fresh non-expiring cache: call %d returned %d, want the first result %d", calls, i, got, first)
@@ -263,6 +303,9 @@ func onceProp(c OnceCase, r *pbt.R) error {
 	r.NonTrivialIf(calls >= 1, "called")
 	if calls >= 2 {
 		r.Label("repeated calls")
+	}
+	if c.Zero && calls >= 2 {
+		r.Label("repeated calls after a zero-valued first result")
 	}
 	return nil
 }
@@ -282,6 +325,29 @@ type DelayCase struct {
 	N   int    `json:"n"`
 	Pat string `json:"pat"`
 	D   int    `json:"d"`
+	// L: how long the invocations of the callback take (virtual time, time.Sleep inside the callback):
+	// 0 = no time, 1 = the first one takes 3d+1ms and the rest no time, 2 = odd invocations take 2d+1ms and even ones 1ms,
+	// 3 = every one takes d/2.
+	L int `json:"l,omitempty"`
+}
+
+const nLatShapes = 4
+
+func latency(shape, call int, d time.Duration) time.Duration {
+	switch shape {
+	case 1:
+		if call == 1 {
+			return 3*d + time.Millisecond
+		}
+	case 2:
+		if call%2 == 1 {
+			return 2*d + time.Millisecond
+		}
+		return time.Millisecond
+	case 3:
+		return d / 2
+	}
+	return 0
 }
 
 func patOf(s pbt.Src, min, max int) string {
@@ -323,12 +389,12 @@ func retryOutOfEnum(c RetryCase, thorough bool) bool {
 
 func enumDelay(s pbt.Src, thorough bool) DelayCase {
 	sc := enumScope(thorough)
-	return DelayCase{N: pbt.Range(s, sc.nLo, sc.nHi), Pat: patOf(s, 0, sc.pat), D: s.Intn(sc.delays)}
+	return DelayCase{N: pbt.Range(s, sc.nLo, sc.nHi), Pat: patOf(s, 0, sc.pat), D: s.Intn(sc.delays), L: s.Intn(nLatShapes)}
 }
 
 func genDelay(s pbt.Src, _ bool) DelayCase {
 	n := wideN(s)
-	return DelayCase{N: n, Pat: genWidePat(s, n), D: s.Intn(len(delayTable))}
+	return DelayCase{N: n, Pat: genWidePat(s, n), D: s.Intn(len(delayTable)), L: s.Intn(nLatShapes)}
 }
 
 func delayOutOfEnum(c DelayCase, thorough bool) bool {
@@ -369,11 +435,19 @@ type recorder struct {
 	calls int
 	errs  []error
 	times []time.Time
+	ends  []time.Time
+	lat   func(call int) time.Duration // virtual duration of an invocation (nil: none)
 }
 
 func (rec *recorder) invoke() error {
 	rec.calls++
 	rec.times = append(rec.times, time.Now())
+	if rec.lat != nil && rec.calls <= rec.limit {
+		if l := rec.lat(rec.calls); l > 0 {
+			time.Sleep(l)
+		}
+	}
+	rec.ends = append(rec.ends, time.Now())
 	if rec.calls > rec.limit {
 		rec.errs = append(rec.errs, nil)
 		return nil // bail out: the oracle reports the excess invocations
@@ -467,11 +541,12 @@ func retryProp(c RetryCase, r *pbt.R) error {
 func delayProp(c DelayCase, r *pbt.R) error {
 	n := clamp(c.N, -hardMaxCall, hardMaxCall)
 	d := delayTable[clamp(c.D, 0, len(delayTable)-1)]
-	rec := &recorder{pat: c.Pat, limit: modelRetry(n, c.Pat).calls + 3}
+	shape := clamp(c.L, 0, nLatShapes-1)
+	rec := &recorder{pat: c.Pat, limit: modelRetry(n, c.Pat).calls + 3, lat: func(call int) time.Duration { return latency(shape, call, d) }}
 	t0 := time.Now()
 	elapsed, attempts, err := gogu.RType[int]{Input: 7}.RetryWithDelay(n, d, func(time.Duration, int) error { return rec.invoke() })
 	t1 := time.Now()
-	ctx := fmt.Sprintf("RetryWithDelay(n=%d, delay=%v) with callback pattern %q", n, d, c.Pat)
+	ctx := fmt.Sprintf("RetryWithDelay(n=%d, delay=%v) with callback pattern %q, invocation durations of shape %d (%v, %v, %v, ...)", n, d, c.Pat, shape, latency(shape, 1, d), latency(shape, 2, d), latency(shape, 3, d))
 	if e := checkOutcome(ctx, n, c.Pat, rec, attempts, err, false); e != nil {
 		return e
 	}
@@ -491,6 +566,9 @@ func delayProp(c DelayCase, r *pbt.R) error {
 	retryLabels(r, n, c.Pat)
 	if d > 0 && rec.calls >= 2 {
 		r.Label("waited between invocations")
+		if shape != 0 {
+			r.Label("waited between invocations that take time")
+		}
 	}
 	return nil
 }
@@ -511,26 +589,26 @@ func TestProp(t *testing.T) {
 		},
 		&pbt.Check[WrapCase]{
 			Name: "before",
-			Rule: "Before(&n, cache, fn) called k times in a row on a fresh non-expiring cache (no cleanup goroutine); fn counts its invocations and returns a fresh non-zero value each time; " +
+			Rule: "Before(&n, cache, fn) called k times in a row on a fresh non-expiring cache (no cleanup goroutine); fn counts its invocations and returns a value of its own each time (x 3: never the zero value / its first run returns 0 / its nth run returns 0); " +
 				scopeText + " x every k in 0..12 (0..24) x counter type int/int8/int64; random: n in -20..40, k in 0..60. " +
 				"Oracle: call i runs fn exactly once iff i <= n and then returns that result; every later call runs nothing and (n >= 1) returns the result of the nth run; for n <= 0 the returned value is not asserted. " +
 				"Non-trivial = at least one call was made.",
 			Enum: enumWrap, Gen: genWrap, Prop: beforeProp, OutOfEnum: wrapOutOfEnum,
 			RapidQuick: 300, RapidThorough: 20000,
-			Fixed: []WrapCase{{N: 1, Calls: 2}, {N: 3, Calls: 6}, {N: 0, Calls: 2}},
+			Fixed: []WrapCase{{N: 1, Calls: 2}, {N: 3, Calls: 6}, {N: 0, Calls: 2}, {N: 2, Calls: 5, Z: 2}},
 		},
 		&pbt.Check[OnceCase]{
 			Name: "once",
-			Rule: "Once(cache, fn) called k times in a row on a fresh non-expiring cache with a new counting closure per call returning a fresh non-zero value; " +
-				"enumerated: every k in 0..12 (thorough 0..64); random: k in 0..400. Oracle: exactly one invocation (during the first call), every call returns the first result. " +
+			Rule: "Once(cache, fn) called k times in a row on a fresh non-expiring cache with a new counting closure per call returning a fresh value (the first run returns either a non-zero value or the zero value 0 of the int result type); " +
+				"enumerated: every k in 0..12 (thorough 0..64) x {non-zero, zero first result}; random: k in 0..400. Oracle: exactly one invocation (during the first call), every call returns the first result. " +
 				"Non-trivial = at least one call was made.",
 			Enum: func(s pbt.Src, thorough bool) OnceCase {
 				if thorough {
-					return OnceCase{Calls: pbt.Range(s, 0, 64)}
+					return OnceCase{Calls: pbt.Range(s, 0, 64), Zero: pbt.Bool(s)}
 				}
-				return OnceCase{Calls: pbt.Range(s, 0, 12)}
+				return OnceCase{Calls: pbt.Range(s, 0, 12), Zero: pbt.Bool(s)}
 			},
-			Gen:  func(s pbt.Src, _ bool) OnceCase { return OnceCase{Calls: pbt.Range(s, 0, 400)} },
+			Gen:  func(s pbt.Src, _ bool) OnceCase { return OnceCase{Calls: pbt.Range(s, 0, 400), Zero: pbt.Bool(s)} },
 			Prop: onceProp,
 			OutOfEnum: func(c OnceCase, thorough bool) bool {
 				if thorough {
@@ -539,7 +617,7 @@ func TestProp(t *testing.T) {
 				return c.Calls > 12
 			},
 			RapidQuick: 100, RapidThorough: 2000,
-			Fixed: []OnceCase{{Calls: 1}, {Calls: 2}, {Calls: 5}},
+			Fixed: []OnceCase{{Calls: 1}, {Calls: 2}, {Calls: 5}, {Calls: 3, Zero: true}},
 		},
 		&pbt.Check[RetryCase]{
 			Name: "retry",
@@ -554,8 +632,8 @@ func TestProp(t *testing.T) {
 		},
 		&pbt.Check[DelayCase]{
 			Name: "retrydelay",
-			Rule: "RType[int].RetryWithDelay(n, d, fn) inside a synctest bubble (virtual, exact clock; fn records time.Now()); same n and patterns as retry x d in {0, 5ms, 1s} (thorough and random also 1ns, 1h). " +
-				"Oracle: invocation count, attempts and error as for retry (no error demanded for n <= 0); consecutive invocations start at least d apart (lower bound only); the reported elapsed time is not asserted. Non-trivial as for retry.",
+			Rule: "RType[int].RetryWithDelay(n, d, fn) inside a synctest bubble (virtual, exact clock; fn records time.Now()); same n and patterns as retry x d in {0, 5ms, 1s} (thorough and random also 1ns, 1h) x 4 shapes of how long the invocations take in virtual time (none; first 3d+1ms; odd ones 2d+1ms and even ones 1ms; each d/2). " +
+				"Oracle: invocation count, attempts and error as for retry (no error demanded for n <= 0); consecutive invocations START at least d apart (lower bound only, the weakest reading of 'waits at least d between consecutive attempts'); the reported elapsed time is not asserted. Non-trivial as for retry.",
 			Enum: enumDelay, Gen: genDelay, Prop: delayProp, OutOfEnum: delayOutOfEnum,
 			Bubble:     true,
 			RapidQuick: 300, RapidThorough: 10000,
